@@ -94,12 +94,18 @@ impl<'a> Recorder<'a> {
                     self.stopped = true;
                     false
                 } else {
-                    self.res.cases += 1;
-                    self.res.evals += 1;
                     for f in &fails {
                         *self.res.excluded_known.entry(f.sig.clone()).or_insert(0) += 1;
                     }
-                    true
+                    // everything that failed is a listed known finding: count the rest of the case
+                    match take_stashed_pass() {
+                        Some(p) => self.record(case, Ok(p)),
+                        None => {
+                            self.res.cases += 1;
+                            self.res.evals += 1;
+                            true
+                        }
+                    }
                 }
             }
         }
@@ -115,7 +121,8 @@ impl<'a> Recorder<'a> {
 pub const HARNESS_PANIC: &str = "HARNESS-PANIC";
 
 /// Run a check function, turning a panic into a failure with a site signature.
-pub fn run_checked<C>(check: fn(&C) -> Verdict, case: &C) -> Verdict {
+pub fn run_checked<C>(check: &dyn Fn(&C) -> Verdict, case: &C) -> Verdict {
+    let _ = take_stashed_pass();
     match panics::catch(|| check(case)) {
         Ok(v) => v,
         Err(info) => {
@@ -143,77 +150,114 @@ impl<C: Case> DynSub for PropSub<C> {
     }
 
     fn run_shard(&self, sc: &ShardCtx, known: &dyn Fn(&str) -> bool) -> ShardResult {
-        let t0 = Instant::now();
-        let rec = RefCell::new(Recorder::new(known, if self.opts.isolate { sc.cur_path.clone() } else { None }));
-        if sc.cases == 0 {
-            return rec.into_inner().finish(t0);
-        }
-        let cfg = Config {
-            cases: sc.cases.min(u32::MAX as u64) as u32,
-            rng_seed: RngSeed::Fixed(sc.seed),
-            failure_persistence: None,
-            max_shrink_iters: self.opts.max_shrink_iters,
-            max_global_rejects: 65536,
-            max_local_rejects: 65536,
-            ..Config::default()
-        };
-        let mut runner = TestRunner::new(cfg);
-        let strat = (self.strategy)(sc.tier);
-        let failed = Cell::new(false);
-        let check = self.check;
-        let result = runner.run(&strat, |case: C| {
-            let to_json = || serde_json::to_value(&case).unwrap_or(serde_json::Value::Null);
-            rec.borrow().about_to_run(&to_json);
-            let v = run_checked(check, &case);
-            if failed.get() {
-                // shrinking: only decide whether this candidate still fails in an unlisted way
-                return match &v {
-                    Err(fails) if rec.borrow().unknown(fails).is_some() => Err(TestCaseError::fail("still failing")),
-                    _ => Ok(()),
-                };
-            }
-            if rec.borrow_mut().record(&to_json, v) {
-                Ok(())
-            } else {
-                failed.set(true);
-                Err(TestCaseError::fail("failing case"))
-            }
-        });
-        let mut rec = rec.into_inner();
-        match result {
-            Ok(()) => {}
-            Err(TestError::Fail(_, minimal)) => {
-                if rec.res.harness_error.is_none() {
-                    // re-evaluate the minimal case to obtain its own failure list
-                    let v = run_checked(check, &minimal);
-                    let fails = match v {
-                        Err(f) if rec.unknown(&f).is_some() => f,
-                        _ => rec.res.failure.as_ref().map(|f| f.fails.clone()).unwrap_or_default(),
-                    };
-                    let case = if rec.unknown(&fails).is_some() && run_is_consistent(&fails) {
-                        serde_json::to_value(&minimal).unwrap_or(serde_json::Value::Null)
-                    } else {
-                        rec.res.failure.as_ref().map(|f| f.case.clone()).unwrap_or(serde_json::Value::Null)
-                    };
-                    rec.res.failure = Some(FailureRec { case, fails });
-                }
-            }
-            Err(TestError::Abort(reason)) => {
-                rec.res.harness_error = Some(format!("proptest aborted: {reason}"));
-            }
-        }
-        rec.finish(t0)
+        run_prop_shard(&self.strategy, &self.check, &self.opts, sc, known)
     }
 
     fn replay(&self, case: &serde_json::Value) -> Result<Verdict, String> {
         let c: C = serde_json::from_value(case.clone()).map_err(|e| format!("cannot decode case: {e}"))?;
-        Ok(run_checked(self.check, &c))
+        Ok(run_checked(&self.check, &c))
     }
 }
 
-fn run_is_consistent(fails: &[Fail]) -> bool {
-    !fails.is_empty()
+/// Exit code of a shard whose current case exceeded ten times its per-case budget.
+pub const EXIT_CASE_TIMEOUT: i32 = 97;
+
+static CASE_STARTED_MS: std::sync::atomic::AtomicU64 = std::sync::atomic::AtomicU64::new(0);
+static WATCHDOG: std::sync::Once = std::sync::Once::new();
+
+fn now_ms() -> u64 {
+    static T0: std::sync::OnceLock<Instant> = std::sync::OnceLock::new();
+    T0.get_or_init(Instant::now).elapsed().as_millis() as u64 + 1
 }
+
+/// Mark the start of a case (0 = idle). With `isolate`, a watchdog thread ends the shard process
+/// when one case runs longer than `10 × case_budget_s`; the orchestrator then re-runs that case
+/// alone. This is process control only (no wall-clock value enters a verdict).
+pub fn case_started(opts: &SubOpts) {
+    if !opts.isolate {
+        return;
+    }
+    let limit_ms = opts.case_budget_s.max(1) * 10_000;
+    WATCHDOG.call_once(|| {
+        std::thread::spawn(move || {
+            loop {
+                std::thread::sleep(std::time::Duration::from_millis(200));
+                let st = CASE_STARTED_MS.load(std::sync::atomic::Ordering::Relaxed);
+                if st != 0 && now_ms().saturating_sub(st) > limit_ms {
+                    std::process::exit(EXIT_CASE_TIMEOUT);
+                }
+            }
+        });
+    });
+    CASE_STARTED_MS.store(now_ms(), std::sync::atomic::Ordering::Relaxed);
+}
+
+pub fn case_finished() {
+    CASE_STARTED_MS.store(0, std::sync::atomic::Ordering::Relaxed);
+}
+
+pub fn run_prop_shard<C: Case>(strategy: &dyn Fn(Tier) -> BoxedStrategy<C>, check: &dyn Fn(&C) -> Verdict, opts: &SubOpts, sc: &ShardCtx, known: &dyn Fn(&str) -> bool) -> ShardResult {
+    let t0 = Instant::now();
+    let rec = RefCell::new(Recorder::new(known, if opts.isolate { sc.cur_path.clone() } else { None }));
+    if sc.cases == 0 {
+        return rec.into_inner().finish(t0);
+    }
+    let cfg = Config {
+        cases: sc.cases.min(u32::MAX as u64) as u32,
+        rng_seed: RngSeed::Fixed(sc.seed),
+        failure_persistence: None,
+        max_shrink_iters: opts.max_shrink_iters,
+        max_global_rejects: 65536,
+        max_local_rejects: 65536,
+        ..Config::default()
+    };
+    let mut runner = TestRunner::new(cfg);
+    let strat = strategy(sc.tier);
+    let failed = Cell::new(false);
+    let result = runner.run(&strat, |case: C| {
+        let to_json = || serde_json::to_value(&case).unwrap_or(serde_json::Value::Null);
+        rec.borrow().about_to_run(&to_json);
+        case_started(opts);
+        let v = run_checked(check, &case);
+        case_finished();
+        if failed.get() {
+            // shrinking: only decide whether this candidate still fails in an unlisted way
+            return match &v {
+                Err(fails) if rec.borrow().unknown(fails).is_some() => Err(TestCaseError::fail("still failing")),
+                _ => Ok(()),
+            };
+        }
+        if rec.borrow_mut().record(&to_json, v) {
+            Ok(())
+        } else {
+            failed.set(true);
+            Err(TestCaseError::fail("failing case"))
+        }
+    });
+    let mut rec = rec.into_inner();
+    match result {
+        Ok(()) => {}
+        Err(TestError::Fail(_, minimal)) => {
+            if rec.res.harness_error.is_none() {
+                // re-evaluate the minimal case to obtain its own failure list
+                let v = run_checked(check, &minimal);
+                if let Err(fails) = v {
+                    if rec.unknown(&fails).is_some() {
+                        let case = serde_json::to_value(&minimal).unwrap_or(serde_json::Value::Null);
+                        rec.res.failure = Some(FailureRec { case, fails });
+                    }
+                }
+                // otherwise keep the original (unshrunk) failing case recorded at first failure
+            }
+        }
+        Err(TestError::Abort(reason)) => {
+            rec.res.harness_error = Some(format!("proptest aborted: {reason}"));
+        }
+    }
+    rec.finish(t0)
+}
+
+
 
 impl DynSub for EnumSub {
     fn name(&self) -> &str {
@@ -259,5 +303,51 @@ impl DynSub for EnumSub {
                 }
             }
         }
+    }
+}
+
+/// Closure-based variant of `PropSub` (sub-checks parameterised at run time, e.g. per format driver).
+pub struct ClosureSub<C> {
+    pub name: String,
+    pub rule: String,
+    pub strategy: Box<dyn Fn(Tier) -> BoxedStrategy<C> + Send + Sync>,
+    pub check: Box<dyn Fn(&C) -> Verdict + Send + Sync>,
+    pub quick: u64,
+    pub thorough: u64,
+    pub opts: SubOpts,
+}
+
+impl<C> ClosureSub<C> {
+    pub fn with(mut self, f: impl FnOnce(&mut SubOpts)) -> Self {
+        f(&mut self.opts);
+        self
+    }
+    pub fn boxed(self) -> Box<dyn DynSub>
+    where
+        C: Case,
+    {
+        Box::new(self)
+    }
+}
+
+impl<C: Case> DynSub for ClosureSub<C> {
+    fn name(&self) -> &str {
+        &self.name
+    }
+    fn rule(&self) -> &str {
+        &self.rule
+    }
+    fn opts(&self) -> &SubOpts {
+        &self.opts
+    }
+    fn cases(&self, tier: Tier) -> u64 {
+        tier.pick(self.quick, self.thorough)
+    }
+    fn run_shard(&self, sc: &ShardCtx, known: &dyn Fn(&str) -> bool) -> ShardResult {
+        run_prop_shard(&*self.strategy, &*self.check, &self.opts, sc, known)
+    }
+    fn replay(&self, case: &serde_json::Value) -> Result<Verdict, String> {
+        let c: C = serde_json::from_value(case.clone()).map_err(|e| format!("cannot decode case: {e}"))?;
+        Ok(run_checked(&*self.check, &c))
     }
 }
